@@ -559,3 +559,5 @@ def replay(case):
                 os.environ['TZ'] = old
             time.tzset()
         ctx.close()
+
+MANIFEST['text'] += ' Modification times at and before the epoch and in the future, and a date far ahead of the clock, are part of the conditional layer.'
